@@ -60,6 +60,36 @@ class C13(PropertyCheck):
         "np.dot / np.hstack / complex arithmetic of numpy are modelled (finite sums, pair arithmetic), not verified",
         "the pylops base class is replaced by a three-line stand-in (common.load_autoarray)",
     ]
+    modelled_functions = [
+        "autoarray/operators/transformer_util.py:preload_real_transforms",
+        "autoarray/operators/transformer_util.py:preload_imag_transforms",
+        "autoarray/operators/transformer_util.py:visibilities_via_preload_jit_from",
+        "autoarray/operators/transformer_util.py:visibilities_jit",
+        "autoarray/operators/transformer_util.py:image_via_jit_from",
+        "autoarray/operators/transformer_util.py:transformed_mapping_matrix_via_preload_jit_from",
+        "autoarray/operators/transformer_util.py:transformed_mapping_matrix_jit",
+        "autoarray/operators/transformer.py:TransformerDFT.__init__",
+        "autoarray/operators/transformer.py:TransformerDFT.visibilities_from",
+        "autoarray/operators/transformer.py:TransformerDFT.image_from",
+        "autoarray/operators/transformer.py:TransformerDFT.transform_mapping_matrix",
+        "autoarray/structures/grids/grid_2d_util.py:grid_2d_slim_via_mask_from",
+        "autoarray/geometry/geometry_util.py:central_scaled_coordinate_2d_from",
+        "autoarray/geometry/geometry_util.py:central_pixel_coordinates_2d_from",
+        "autoarray/structures/grids/uniform_2d.py:Grid2D.in_radians",
+        "autoarray/mask/derive/grid_2d.py:DeriveGrid2D.unmasked",
+        "autoarray/structures/arrays/array_2d_util.py:array_2d_native_from",
+        "autoarray/structures/visibilities.py:AbstractVisibilities.__init__",
+        "autoarray/structures/visibilities.py:AbstractVisibilities.in_array",
+        "autoarray/inversion/inversion/interferometer/inversion_interferometer_util.py:data_vector_via_transformed_mapping_matrix_from",
+        "autoarray/inversion/inversion/interferometer/mapping.py:InversionInterferometerMapping.data_vector",
+        "autoarray/inversion/inversion/interferometer/mapping.py:InversionInterferometerMapping.curvature_matrix",
+        "autoarray/inversion/inversion/interferometer/abstract.py:AbstractInversionInterferometer.operated_mapping_matrix_list",
+        "autoarray/inversion/inversion/abstract.py:AbstractInversion.operated_mapping_matrix",
+        "autoarray/inversion/inversion/abstract.py:AbstractInversion.no_regularization_index_list",
+        "autoarray/inversion/inversion/abstract.py:AbstractInversion.param_range_list_from",
+        "autoarray/inversion/inversion/inversion_util.py:curvature_matrix_via_mapping_matrix_from",
+        "autoarray/inversion/inversion/inversion_util.py:curvature_matrix_with_added_to_diag_from",
+    ]
     assumptions = [
         "images are slim-stored (TransformerDFT.visibilities_from reads np.array(image) on the preload path)",
         "noise-map real and imaginary parts are non-zero",
@@ -166,14 +196,14 @@ class C13(PropertyCheck):
         for (h, w) in gen.shapes_upto(cells):
             for m in gen.all_masks(h, w):
                 yield self._transformer_case(rng, m, "exh_mask", c=2, fixed_uv=fixed_uv)
-        n = 120 if tier == "quick" else 1200
+        n = 300 if tier == "quick" else 2500
         for i in range(n):
             h, w = rng.randint(1, 7), rng.randint(1, 7)
             m, kind = gen.random_mask(rng, h, w)
             yield self._transformer_case(rng, m, f"rnd_{kind}")
-        for i in range(40 if tier == "quick" else 400):
+        for i in range(100 if tier == "quick" else 800):
             yield self._util_case(rng, "util")
-        for i in range(60 if tier == "quick" else 600):
+        for i in range(150 if tier == "quick" else 1200):
             h, w = rng.randint(1, 6), rng.randint(1, 6)
             m, kind = gen.random_mask(rng, h, w)
             yield self._normal_case(rng, m, "normal")
@@ -448,9 +478,15 @@ class C13(PropertyCheck):
 
     def theorems_for(self, case):
         if case["kind"] == "normal_eq":
-            return ["C13.b_transformed_mapping_matrix", "C13.d_data_vector", "C13.d_curvature_matrix"]
-        return ["C13.a_visibilities", "C13.a_preload_eq", "C13.b_transformed_mapping_matrix",
-                "C13.c_image_is_adjoint"]
+            return ["C13.a_grid_is_pixel_centres_in_radians", "C13.b_transformed_mapping_matrix",
+                    "C13.d_data_vector", "C13.d_curvature_matrix", "C13.d_curvature_symmetric",
+                    "C13.d_operated_mapping_matrix_rows", "C13.d_data_vector_from_mapping_matrix"]
+        t = ["C13.a_phase", "C13.a_visibilities", "C13.a_preload_eq", "C13.b_transformed_mapping_matrix",
+             "C13.b_columnwise_operator", "C13.c_image_from",
+             "C13.c_image_is_real_part_of_conjugate_transpose", "C13.c_adjoint_identity"]
+        if case["kind"] == "transformer":
+            t.append("C13.a_grid_is_pixel_centres_in_radians")
+        return t
 
 
 CHECK = C13()
